@@ -56,6 +56,7 @@ func init() {
 }
 
 func runC12(c *Ctx, r *Report) {
+	importFoundation(c, r, "C12", "read-loop")
 	r.Rule("C12/explicit-matcher", "the exact echo matcher tests that the search window contains the input", 1)
 	checkExplicitMatcherArgs(c, r, "C12/explicit-matcher")
 	r.Rule("C12/search-window", "expected-response and prompt searches look at a suffix of the buffer that starts on a line boundary (else a line tail ending in 'password:' makes the secret be typed unasked)", 4)
